@@ -7,10 +7,24 @@ COMMON_TB = [
 ]
 
 PROPS = {
+    "C17": {
+        "theorems": ["NLE.Theorems.C17", "NLE.Theorems.C17Round"],
+        "modes": [("bo", 3000, 40000), ("retry", 1500, 20000), ("brk", 1500, 20000)],
+        "level": "proof",
+        "claim": "Theorems: CalculateBackoff (exact rational model) lies within ±Jitter of min(Max, Init×Mult^n) and is never negative for every attempt number and draw (well-formed configs); RetryWithBackoff model: at most MaxAttempts invocations, none at/after cancellation, none after success/permanent error/breaker refusal, waits = drawn backoffs; CircuitBreaker: opens at exactly the threshold, never invokes while open within the cooldown, closes on success; election round: jitter in [10 ms,100 ms], at most four attempts, separated by the default backoff (constants regenerated from the source). Go float64 evaluation is compared with the proved envelope (slack 2 ns + 1e-9 relative), the loop and the breaker are compared exactly under virtual time.",
+        "design_ref": "§6 C17",
+        "rule": "backoff: configurations from a lattice of initial/max/multiplier/jitter values × attempt numbers up to 4000 (16 draws of the real function each); "
+                "retry: random outcome scripts, MaxAttempts 0..5, cancellation instants, optional breaker, run under testing/synctest; breaker: random call/outcome timelines around the cooldown; "
+                "distinct = distinct request lines; non-trivial = well-formed config (backoff), more than one invocation (retry), at least one refusal (breaker)",
+        "trusted_base": COMMON_TB + ["modelled, not verified: IEEE-754 arithmetic and math.Pow (compared within a stated slack, never proved); math/rand/v2 as an arbitrary value in [0,1); testing/synctest virtual time as the meaning of time"],
+        "assumptions": ["BackoffConfig well-formed (non-negative durations and multiplier, 0 <= Jitter <= 1); MaxAttempts >= 0; failureThreshold >= 1"],
+    },
     "C15": {
         "theorems": ["NLE.Theorems.C15"],
         "modes": [("cls", 4000, 60000), ("lower", 0, 0)],
         "level": "proof",
+        "claim": "Theorems over an inductive algebra of error values (arbitrary texts, arbitrary %w nesting, the library's error types, nats.go API errors) for the classifier step lists regenerated from leader/error.go on every run: exclusive, total, nil-neither, ctx/timeout transient at any depth, config/permission/bucket permanent, nats conflict errors permanent for every sequence number, nats transport errors transient. The interpreter and the Error()/errors.Is model are compared with the real Go functions on generated error values (text included) on every run.",
+        "design_ref": "§6 C15",
         "rule": "error values generated from the library's sentinels/types, context errors, nats.go exported errors and API errors, "
                 "random texts built from both pattern tables (case variants, U+212A/U+0130), nested up to depth 5; "
                 "distinct = distinct error expressions; each is non-trivial (non-nil, classified by both the Go functions and the model)",
@@ -21,6 +35,8 @@ PROPS = {
         "theorems": ["NLE.Theorems.C16"],
         "modes": [("cfg", 6000, 0)],
         "level": "proof",
+        "claim": "Theorem: for every configuration with |HeartbeatInterval| <= 2^61 ns, the rule list regenerated from validateConfig on every run accepts exactly the documented configurations and names an offending field otherwise; constructor validates before contacting the store (AST fact). Interpreter compared with NewElection on the boundary lattice on every run.",
+        "design_ref": "§6 C16",
         "rule": "configurations on the boundary lattice of every rule (each duration at, 1 ns below/above each threshold, 0, negative, up to a year; "
                 "empty/non-empty strings; priorities/thresholds around 0); thorough tier enumerates the full lattice; distinct = distinct configurations, "
                 "all non-trivial (each is run through NewElection and through the model)",
@@ -28,3 +44,4 @@ PROPS = {
         "assumptions": ["durations within InRange (|H| <= 2^61 ns, about 73 years)"],
     },
 }
+NOT_APPLICABLE = {}
